@@ -58,3 +58,60 @@ Proof.
     + right. left. symmetry. apply prime_div_prime; [exact Hq | exact prime_3 | exact Hd].
   - split; [reflexivity|]. split; [exists 9; reflexivity | vm_compute; reflexivity].
 Qed.
+
+(* ---- primality and Fermat's little theorem for a small p by exhaustive check (used to instantiate the hypotheses below) *)
+From C13 Require Import ProofsSweep ProofsPrimRoot.
+Lemma prime_by_check p : 1 < p -> forallb (fun d => negb (p mod d =? 0)) (zrange 2 (p - 1)) = true -> prime p.
+Proof.
+  intros Hp H. apply prime_alt. split; [exact Hp|]. intros n Hn Hd.
+  rewrite forallb_forall in H. specialize (H n (zrange_In 2 (p - 1) n ltac:(lia))).
+  apply negb_true_iff, Z.eqb_neq in H. apply H. apply Z.mod_divide; [lia | exact Hd].
+Qed.
+Lemma fermat_by_check p : 1 < p -> forallb (fun r => powmod r (p - 1) p =? 1) (zrange 1 (p - 1)) = true -> Fermat_hyp p.
+Proof.
+  intros Hp H u Hu. rewrite forallb_forall in H.
+  assert (Hr : 1 <= u mod p <= p - 1).
+  { pose proof (Z.mod_pos_bound u p ltac:(lia)). destruct (Z.eq_dec (u mod p) 0) as [E|]; [|lia].
+    exfalso. apply Hu. apply Z.mod_divide; [lia | exact E]. }
+  specialize (H (u mod p) (zrange_In 1 (p - 1) _ Hr)). apply Z.eqb_eq in H.
+  transitivity ((u mod p) ^ (p - 1)); [apply cong_pow; [symmetry; apply cong_mod | reflexivity]|].
+  apply powmod_eq_1; [exact Hp | lia | exact H].
+Qed.
+
+(* C13_sqrootmodprime_decides_residuosity in the ATKIN class: p = 13 = 5 mod 8, 2^6 = -1; 3 = 4^2 is a residue, 2 is not *)
+Example decides_atkin_13 :
+  prime 13 /\ Fermat_hyp 13 /\ 13 mod 8 = 5 /\ cong 13 (2 ^ ((13 - 1) / 2)) (-1) /\
+  sqrootmodprime 3 13 [] = Some 9 /\ (residue 13 3 -> 9 <> -1 /\ cong 13 (9 * 9) 3) /\
+  sqrootmodprime 2 13 [] = Some (-1) /\ (~ residue 13 2 -> -1 = -1).
+Proof.
+  assert (Hp : prime 13) by (apply prime_by_check; [lia | vm_compute; reflexivity]).
+  assert (Hf : Fermat_hyp 13) by (apply fermat_by_check; [lia | vm_compute; reflexivity]).
+  assert (H2 : cong 13 (2 ^ ((13 - 1) / 2)) (-1)) by (exists 5; reflexivity).
+  assert (R3 : sqrootmodprime 3 13 [] = Some 9) by (vm_compute; reflexivity).
+  assert (R2 : sqrootmodprime 2 13 [] = Some (-1)) by (vm_compute; reflexivity).
+  split; [exact Hp|]. split; [exact Hf|]. split; [reflexivity|]. split; [exact H2|]. split; [exact R3|].
+  split; [exact (proj1 (sqrootmodprime_decides 13 3 [] 9 Hp ltac:(lia) Hf (fun _ => H2) ltac:(intros H; discriminate H) ltac:(constructor) R3))|].
+  split; [exact R2|].
+  exact (proj2 (sqrootmodprime_decides 13 2 [] (-1) Hp ltac:(lia) Hf (fun _ => H2) ltac:(intros H; discriminate H) ltac:(constructor) R2)).
+Qed.
+(* ... and in the MUELLER class: p = 41 = 9 mod 16, 2^20 = 1; draws 3 (non-residue) and 2 (residue) *)
+Example decides_mueller_41 :
+  prime 41 /\ Fermat_hyp 41 /\ 41 mod 16 = 9 /\ cong 41 (2 ^ ((41 - 1) / 2)) 1 /\ Forall (fun d => 0 < d < 41) [3; 2] /\
+  (exists x, sqrootmodprime 5 41 [3; 2] = Some x /\ (residue 41 5 -> x <> -1 /\ cong 41 (x * x) 5)).
+Proof.
+  assert (Hp : prime 41) by (apply prime_by_check; [lia | vm_compute; reflexivity]).
+  assert (Hf : Fermat_hyp 41) by (apply fermat_by_check; [lia | vm_compute; reflexivity]).
+  assert (H2 : cong 41 (2 ^ ((41 - 1) / 2)) 1) by (exists 25575; reflexivity).
+  assert (Hd : Forall (fun d => 0 < d < 41) [3; 2]) by (repeat constructor; lia).
+  split; [exact Hp|]. split; [exact Hf|]. split; [reflexivity|]. split; [exact H2|]. split; [exact Hd|].
+  destruct (sqrootmodprime 5 41 [3; 2]) as [x|] eqn:E; [|vm_compute in E; discriminate E].
+  exists x. split; [reflexivity|].
+  exact (proj1 (sqrootmodprime_decides 41 5 [3; 2] x Hp ltac:(lia) Hf ltac:(intros H; discriminate H) (fun _ => H2) Hd E)).
+Qed.
+(* C13_prim_root_of_odd_prime_is_primitive at n = 17: every hypothesis holds, the theorem applies to the value computed *)
+Example prim_root_prime_hyps_17 : prim_root 17 17 [2] 0 = Some (3, 2) /\ (forall d, 0 < d -> cong 17 (3 ^ d) 1 -> (17 - 1 | d)).
+Proof.
+  assert (R : prim_root 17 17 [2] 0 = Some (3, 2)) by (vm_compute; reflexivity). split; [exact R|].
+  apply (prim_root_prime 17 [2] 0 3 2 small_prime_17 ltac:(lia) fermat_17); [|exact R].
+  intros q Hq Hd. left. symmetry. apply prime_div_16; assumption.
+Qed.
